@@ -27,15 +27,30 @@ LEVEL_TEXT = ("Proof: ms -> datetime is exactly 1000*ms microseconds for every |
               "round trip gives ms or ms-1, and the bound 2^33*1000 of the exact theorems is proved sharp; string / field theorems "
               "for every four-digit year; explicit format arguments; millis_to_days / days_to_millis / timedelta_from_years / "
               "time_horizon_years / length_in_seconds in Soft64 (monotone, exact on whole days / years). "
+              "Round 4: the binary64 decimal_year is proved NON-DECREASING for EVERY pair of instants at microsecond resolution "
+              "(no range hypothesis: the eight float operations of the day sum lose <= 1e-13 days while one microsecond is 1.16e-11 "
+              "days, so the day sum is strictly increasing within a year; the last two operations are monotone; across a year end the "
+              "earlier value is <= year+1); the ten-step error bound 1e-12 yr, strict increase at >= 1 ms, the inverse within 1 ms and "
+              "year <= decimal_year <= year+1 are proved for every datetime 0001..9999 (was 1697..2242). Call sites inside the anchored "
+              "files are modelled and proved to inherit the property: GriddedForecast.scale_to_test_date (early returns, fraction "
+              "positive for every period >= 1 ms, monotone in the test date, ZeroDivisionError characterised), the datetime statements "
+              "of catalog.filter (threshold = floor millisecond of the datetime, kept events), _none_or_datetime of "
+              "CSEPCatalog.from_dict, and explicit formats with arbitrary literal separators (file-name format %Y-%m-%dT%H-%M-%S-%f). "
               "Tied to the code by a bit-exact correspondence on uniform and boundary-window milliseconds, all microsecond "
-              "phases, strings and decimal years.")
+              "phases, strings and decimal years; where the model reproduces a rounding artefact of the current float path that the "
+              "property does not demand (ms -> datetime outside 1697..2242, the last bits of decimal years and of the scaling "
+              "fraction) an implementation that returns the exact answer, or a decimal year within the error bound from which the "
+              "property's clauses are proved, is accepted and counted, not reported.")
 LEVEL_NOTE = ("CPython's datetime (fromtimestamp = modf, *1e6, round-half-even; timedelta normalisation; strptime/str) and "
               "binary64 arithmetic are modelled by hand and validated bit-for-bit on every run; strptime is modelled for the "
               "canonical field widths that str(datetime) writes; the Windows branch of epoch_time_to_utc_datetime is modelled from the "
               "Python text (str(float) of ms/1000 = the three decimals without trailing zeros: trusted, compared on every run) and "
               "run with the module's `os` replaced by a stand-in named 'nt', not on a Windows build (repaired in /repo as D39; the "
-              "unrepaired branch is kept as toDatetimeNtOld with its kernel-checked findings). Decimal-year theorems keep the "
-              "range 1697..2242.")
+              "unrepaired branch is kept as toDatetimeNtOld with its kernel-checked findings). Decimal-year theorems now cover "
+              "0001..9999 (monotonicity: every integer of microseconds); CPython's decimal_year_to_utc_datetime raises for the few "
+              "instants of year 9999 whose decimal year rounds to 10000.0 (the model returns the integer). str.split(' '), "
+              "operator lookup and float(value) of the datetime filter statements, and datetime comparison of scale_to_test_date, are "
+              "hand transcriptions validated by the correspondence; a mixture of naive and aware datetimes (TypeError) is not modelled.")
 DESIGN_REF = "DESIGN.md §4 C15"
 TECHNIQUE = "Lean 4 proof (Soft64 error analysis + integer arithmetic + omega/decide) with differential correspondence"
 
@@ -56,7 +71,13 @@ THEOREMS = ["Time.ms_to_dt_exact", "Time.dt_to_ms_floor", "Time.ms_roundtrip", "
             "Time.timedeltaFromYears_neg", "Time.timedeltaFromYears_whole",
             "Time.create_utc_never_returns", "Time.create_utc_fixed_spec",
             # phase 2: the code as repaired by D38 / D39
-            "Time.nt_repaired_agrees", "Time.nt_repaired_exact", "Time.create_utc_spec"]
+            "Time.nt_repaired_agrees", "Time.nt_repaired_exact", "Time.create_utc_spec",
+            # round 4 (Properties/C15_Calls.lean)
+            "Time.decimal_year_mono_all", "Time.decimal_year_dayfrac_strict", "Time.decimal_year_err_full",
+            "Time.decimal_year_strict_mono_full", "Time.decimal_year_inverse_within_1ms_full", "Time.decimal_year_in_year",
+            "Time.scale_unchanged_iff", "Time.scale_frac_eq", "Time.scale_mono", "Time.scale_defined_pos",
+            "Time.datetime_statement_threshold", "Time.datetime_filter_keeps", "Time.none_or_datetime_roundtrip",
+            "Time.general_format_agrees", "Time.file_name_format_agrees"]
 TRUSTED = ["Lean 4.33 kernel", "axioms: propext, Classical.choice, Quot.sound at most",
            "Soft64.fl64 is IEEE-754 binary64 round-to-nearest-even and CPython float * and / are that arithmetic "
            "(validated bit-for-bit on every generated operand)",
@@ -84,7 +105,15 @@ RULE = ("uniform integer milliseconds in 1900-01-01..2200-01-01; complete +-2000
         "representation of their event array (list of tuples; structured arrays with little- / big-endian integer or float "
         "origin-time columns; strided views; UCERF3 event arrays and the merged .bin / .gz loaders; get_csep_format) in "
         "sessions read / filter in place / assign another array to the same object, one catalog of > 65536 events per run; "
-        "float-typed milliseconds; the repaired Windows branch and create_utc_datetime asserted like every other class.")
+        "float-typed milliseconds; the repaired Windows branch and create_utc_datetime asserted like every other class. "
+        "Round 4 (harness/c15_calls.py): scale_to_test_date on one forecast object per period (periods from 1 us to 5 years, test "
+        "instants at / around both ends, consecutive microseconds, across year ends; naive / utc / zoneinfo; a sixth of them on "
+        "0001..9999) bit exact + exact rational fraction + monotone; datetime filter statements as str / list / tuple, in_place "
+        "or not, naive and '+00:00' text, all five operators, origin times at threshold +-2, empty catalogs, ten malformed "
+        "statements that must raise; the three time members of CSEPCatalog.from_dict as str(dt) / datetime / None; file names "
+        "through csep.load_catalog_forecast and explicit formats with random literal separators (wrong separator must be "
+        "ValueError); decimal years of 0001..9999 (1 ms lattices and every microsecond around 20+ year ends, first / last "
+        "microseconds of the range, uniform) and every microsecond across second / minute / hour / day carries.")
 
 # sub-classes on which the UNCHANGED library deviates and a decision is pending (generator leaves the assertion out,
 # the observation is counted): see notes/C15.md "Observed on unchanged /repo"
@@ -167,6 +196,30 @@ def year_start_ms(y):
     return us_of(_dt.datetime(y, 1, 1, tzinfo=UTC)) // 1000
 
 
+def _exact_decimal_year(us):
+    dt = dt_of(us, True)
+    y = dt.year
+    ys = us_of(_dt.datetime(y, 1, 1, tzinfo=UTC))
+    leap = y % 4 == 0 and (y % 100 != 0 or y % 400 == 0)
+    return y + Fraction(us - ys, (366 if leap else 365) * 86400000000)
+
+
+def _exact_decimal_year_inverse(d):
+    d = Fraction(d)
+    y = d.numerator // d.denominator
+    leap = y % 4 == 0 and (y % 100 != 0 or y % 400 == 0)
+    return us_of(_dt.datetime(y, 1, 1, tzinfo=UTC)) + (d - y) * (366 if leap else 365) * 86400000000
+
+
+# op -> (driver argument, implementation's answer) -> is the answer the exact one / within the proved error bound?
+_EXACT_ALT = {
+    "c15_ms2dt": lambda arg, a: int(a) == 1000 * int(arg),
+    "c15_ms2dt_nt": lambda arg, a: a == f"{1000 * int(arg)}:a",
+    "c15_decyear": lambda arg, a: abs(Fraction(a) - _exact_decimal_year(int(arg))) <= Fraction(1, 10 ** 11),
+    "c15_decyear_inv": lambda arg, a: abs(int(a) - _exact_decimal_year_inverse(arg)) <= 1,
+}
+
+
 class Ctx:
     def __init__(self, run):
         self.run = run
@@ -175,7 +228,7 @@ class Ctx:
         self.bit = self.tot = 0
 
     def ask(self, line, expected, info):
-        self.pending.append((self.drv.ask(line), expected, info))
+        self.pending.append((self.drv.ask(line), expected, dict(info, _line=line) if line.split(" ", 1)[0] in _EXACT_ALT else info))
 
     def ask_either(self, line, line2, expected, info):
         """entry by entry the implementation must agree with the answer to `line` or with the answer to `line2`"""
@@ -187,6 +240,11 @@ class Ctx:
         for i, expected, info in self.pending:
             got = out[i]
             alt = None
+            exact_alt = None
+            if "_line" in info:
+                op, _, args = info["_line"].partition(" ")
+                exact_alt = (_EXACT_ALT[op], args.split(","))
+                info = {kk: v for kk, v in info.items() if kk != "_line"}
             if "_alt" in info:
                 alt = out[info["_alt"]].split(",")
                 info = {kk: v for kk, v in info.items() if kk != "_alt"}
@@ -197,7 +255,12 @@ class Ctx:
                     self.run.mismatch(dict(info, note="length"), len(expected), len(g))
                     continue
                 for k, (a, b) in enumerate(zip(expected, g)):
-                    same = (a == b) or ("/" in a + b and Fraction(a) == Fraction(b))
+                    same = (a == b)
+                    if not same and "/" in a + b:
+                        try:
+                            same = Fraction(a) == Fraction(b)
+                        except (ValueError, ZeroDivisionError):      # an exception name on one side, a number on the other
+                            same = False
                     if not same and info.get("tol"):
                         # float-valued helper conversions: a re-association of the same formula differs in the last bits
                         # and is not a change of behaviour; (relative, absolute) tolerance, counted
@@ -211,6 +274,17 @@ class Ctx:
                     if not same and alt is not None and k < len(alt) and a == alt[k]:
                         same = True
                         self.run.count("agrees-with-repaired-model-only")
+                    if not same and exact_alt is not None and k < len(exact_alt[1]):
+                        # the model reproduces the rounding of the float path of the CURRENT code; an implementation that returns
+                        # the mathematically exact answer (or, for decimal years, one within the error bound from which the
+                        # property's clauses are proved: `decimal_year_strict_mono_of_err`, `decimal_year_inverse_of_err`) is
+                        # allowed by the property: accepted, counted, not a difference
+                        try:
+                            if exact_alt[0](exact_alt[1][k], a):
+                                same = True
+                                self.run.count("exact-answer-accepted(model reproduces a rounding artefact)")
+                        except (ValueError, ZeroDivisionError, OverflowError):
+                            pass
                     if same:
                         bit += 1
                     else:
@@ -379,16 +453,19 @@ def check_tz_reject(ctx, us, hours):
     case = _case(kind="tz", us=us, offset_hours=hours)
     run.case(case, ("tz", us, hours))
     dt = dt_of(us, aware=False).replace(tzinfo=_dt.timezone(_dt.timedelta(hours=hours)))
+    # the property speaks about naive and UTC-aware datetimes only. What happens to another offset is not stated: the current
+    # code refuses it (ValueError); a conversion that honours the offset and returns the instant's millisecond is just as
+    # good. Only a WRONG millisecond (e.g. the wall-clock fields taken as UTC) is reported.
+    instant_ms = (us - hours * 3600 * 10 ** 6) // 1000
     try:
         r = tu.datetime_to_utc_epoch(dt)
-        run.oracle_failure(case, f"non-UTC tzinfo accepted: returned {r!r} instead of ValueError")
-        got = str(r)
-    except ValueError:
-        got = "none"
+        if r != instant_ms:
+            run.oracle_failure(case, f"non-UTC tzinfo: returned {r!r}, which is neither a refusal nor the instant's millisecond {instant_ms}")
+        run.count("tz:offset-converted-to-the-instant(not judged)")
+        return
     except Exception as e:
-        run.oracle_failure(case, f"non-UTC tzinfo: {type(e).__name__} instead of ValueError")
-        got = type(e).__name__
-    run.count("tz:reject")
+        got = "none"
+        run.count(f"tz:reject:{type(e).__name__}")
     ctx.ask(f"c15_dt2ms other {us}", [got], dict(case, op="c15_dt2ms"))
 
 
@@ -570,8 +647,11 @@ def check_object_times(ctx, obj, steps, tag, ctor=True):
             fail(f"{where}: {name}_epoch raised {type(e).__name__}: {e}")
             return None
         if mode.startswith("offset:"):
-            fail(f"{where}: {name}_time has the non-UTC tzinfo {attr.tzinfo} but {name}_epoch returned {got!r} "
-                 f"instead of raising ValueError")
+            # refusing (ValueError) and converting the instant correctly are both fine (see check_tz_reject); a remembered or
+            # wrong value is not. `us` is the instant (_mk_dt builds the offset datetime with astimezone)
+            if got != us // 1000:
+                fail(f"{where}: {name}_time has the non-UTC tzinfo {attr.tzinfo} and {name}_epoch returned {got!r}: neither a "
+                     f"refusal nor the instant's millisecond {us // 1000}")
             return None
         want = us // 1000
         if got != want or got != tu.datetime_to_utc_epoch(attr):
@@ -753,6 +833,7 @@ class nt_os:
         import types
         from csep.utils import time_utils as tu
         self.tu, self.old = tu, tu.__dict__.get("os")
+        self.missing = "os" not in tu.__dict__       # the branch is then selected some other way: the cases still run (POSIX path)
         tu.os = types.SimpleNamespace(name="nt")
         return self
 
@@ -774,7 +855,12 @@ def check_ms_values_nt(ctx, ms_list, tag, via="func", sorted_window=False):
     """ms -> datetime -> ms when the library believes it runs on Windows (os.name == "nt")."""
     from csep.utils import time_utils as tu
     run = ctx.run
-    with nt_os():
+    with nt_os() as _nt:
+        if _nt.missing:
+            run.count("helper-missing:time_utils.os")
+            if not any("time_utils.os" in a for a in run.assumptions):
+                run.assumptions.append("helper-missing: csep.utils.time_utils has no module global `os` on the tree under test; the "
+                                       "Windows branch cannot be selected through it, these cases run the platform's own path")
         try:
             if via == "catalog":
                 from csep.core.catalogs import CSEPCatalog
@@ -944,9 +1030,10 @@ def check_small(ctx, sub, vals, tag):
         for y in ys:
             err, td = _exc_name(tu.timedelta_from_years, y)
             if y < 0:
-                if not err:
-                    run.oracle_failure(case, f"timedelta_from_years({y!r}) returned {td!r} for a negative argument")
-                exp.append("none" if err else "returned")        # which exception is not part of the statement
+                # a negative duration is outside every statement of the property: what the code does with it (ValueError today)
+                # is only recorded
+                run.count(f"timedelta_from_years(negative):{'raises' if err else 'returns'}(not judged)")
+                exp.append(None)
                 continue
             if err:
                 run.oracle_failure(case, f"timedelta_from_years({y!r}) raised {err}")
@@ -956,7 +1043,9 @@ def check_small(ctx, sub, vals, tag):
             exp.append(str(us))
             if abs(us - Fraction(y) * 31557600 * 10 ** 6) > 1 + Fraction(y) * 31557600 * 10 ** 6 / 2 ** 51:
                 run.oracle_failure(case, f"timedelta_from_years({y!r}) = {td!r} is not y astronomical years to a microsecond")
-        ctx.ask("c15_tdy " + ",".join(frac(y) for y in ys), exp, dict(case, op="c15_tdy", tol=(Fraction(1, 2 ** 50), 1)))
+        keep = [(y, x) for y, x in zip(ys, exp) if x is not None]
+        if keep:
+            ctx.ask("c15_tdy " + ",".join(frac(y) for y, _ in keep), [x for _, x in keep], dict(case, op="c15_tdy", tol=(Fraction(1, 2 ** 50), 1)))
     elif sub == "none":         # None passes through the three converters
         got = [tu.epoch_time_to_utc_datetime(None), tu.datetime_to_utc_epoch(None), tu.decimal_year(None)]
         if got != [None, None, None]:
@@ -1019,8 +1108,10 @@ def check_explicit_format(ctx, us, sep, shape, tag):
             run.oracle_failure(case, f"explicit format {fmt!r} on {s!r}: epoch {e1 or ep!r}, datetime {e2 or d!r}; "
                                      f"expected {us // 1000} and {aware.isoformat()}")
     elif not e1 or not e2:
-        run.oracle_failure(case, f"explicit format {fmt!r} does not match {s!r} but gave {e1 or ep!r} / {e2 or d!r} "
-                                 f"instead of an error")
+        # a format that does not match the string: refusing it (ValueError today) is not demanded by the property - a more
+        # forgiving parser is a harmless change as long as MATCHING formats give the right instant: recorded, not judged
+        run.count("xfmt:mismatch-accepted(not judged)")
+        return
     sp = "S" if sep == " " else sep
     ctx.ask(f"c15_parsex epoch {sp} {int(ffrac)} {int(fzone)} {esc(s)}", "none" if e1 else str(ep),
             dict(case, op="c15_parsex epoch"))
@@ -1130,10 +1221,16 @@ CAT_REPS = ["csep-list", "csep-<i8", "csep->i8", "csep-<f8", "csep->f8", "csep-s
 # the file (numpy.fromfile(filename, ...) three times), so no layout makes it return the events; reader, not a conversion
 
 
+class _HelperMissing(Exception):
+    """a private helper of pyCSEP the harness uses to BUILD an input does not exist on the tree under test"""
+
+
 def _u3_bytes(mss, version):
     """one catalog in the UCERF3-ETAS binary layout (big-endian): version, header, events"""
     import numpy
     from csep.core.catalogs import UCERF3Catalog
+    if not hasattr(UCERF3Catalog, "_get_catalog_dtype") or not hasattr(UCERF3Catalog, "_get_header_dtype"):
+        raise _HelperMissing("UCERF3Catalog._get_catalog_dtype/_get_header_dtype")
     ev = numpy.zeros(len(mss), dtype=UCERF3Catalog._get_catalog_dtype(version))
     ev["origin_time"] = mss
     ev["magnitude"] = 3.0
@@ -1203,7 +1300,16 @@ def check_catalog_times(ctx, steps, tag):
             run.count(f"cattimes:{rep}")
             where = f"step {k} ({rep}, {op}, {len(mss)} events)"
             try:
-                cat = _make_catalog(rep, mss, tmp)
+                try:
+                    cat = _make_catalog(rep, mss, tmp)
+                except _HelperMissing as hm:
+                    # the UCERF3 layouts are built with private dtype helpers of pyCSEP; without them these representations are
+                    # skipped (the public representations - lists, structured arrays of either byte order - still run)
+                    run.count(f"helper-missing:{hm}")
+                    if not any("helper-missing" in a for a in run.assumptions):
+                        run.assumptions.append(f"helper-missing: {hm} not found on the tree under test; UCERF3 catalog "
+                                               f"representations skipped, the other representations cover the conversion")
+                    continue
                 if op == "assign" and prev is not None and rep.startswith("csep-") and rep != "csep-list" \
                         and type(prev).__name__ == "CSEPCatalog":
                     prev.catalog = cat.catalog          # the setter re-computes the statistics
@@ -1441,6 +1547,11 @@ def run(run, rng, tier):
     _wave4(ctx, rng, quick, centres)
     ctx.flush()
 
+    # -- round 4: call sites of the conversions inside the anchored files; decimal years on datetime's full range
+    from . import c15_calls
+    c15_calls.run_calls(ctx, rng, quick)
+    ctx.flush()
+
     # -- a sample of ALL of the above under non-UTC LOCAL time zones: nothing may depend on the zone of the machine
     zones = LOCAL_ZONES + ([] if quick else LOCAL_ZONES_THOROUGH)
     for zone in zones:
@@ -1502,6 +1613,8 @@ def _sample_all(ctx, rng, quick, centres):
     check_decimal_years(ctx, sorted(set(rng.randrange(MS_LO, MS_HI) * 1000 + rng.choice([0, rng.randrange(1000)])
                                         for _ in range(1200 * k))), "tz-uniform")
     _wave4(ctx, rng, quick, centres, k=0.04)
+    from . import c15_calls
+    c15_calls.run_calls(ctx, rng, quick, k=0.05)
     for _ in range(10 if quick else 60):
         check_catalog_times(ctx, gen_catalog_times(rng), "tz-catalogs")
     ctx.run.count(f"local-tz:{zone}:utcoffset-now={-time.timezone}")
@@ -1514,9 +1627,12 @@ def replay(run, payload):
 
 
 def _replay(run, case):
+    from . import c15_calls
     ctx = Ctx(run)
     kind = case.get("kind")
-    if kind == "objtimes":
+    if c15_calls.replay(ctx, case):
+        pass
+    elif kind == "objtimes":
         check_object_times(ctx, case["obj"], case["steps"], "replay", case.get("ctor", True))
     elif kind == "ms":
         check_ms_values(ctx, [int(case["ms"])], "replay")
